@@ -159,11 +159,21 @@ func TestCheck(t *testing.T) {
 		"{each version, inline secret, unconfigured secret} through the ingress handler in a synctest bubble; end-to-end: ingress->queue->running dispatcher->deliverer(time.Now) "+
 		"per tuple/order/selection at all 20 clock instants (quick: tuples of <=2 versions; thorough: also all triples with identity and reversed secret_ref order). "+
 		"Quick tier: shape list by tuple size 1/2/3 = 288/16/2, inbound (clock,timestamp) pairs for triples only with clock=timestamp; thorough: 288 shapes for tuples <=2 and for triples in "+
-		"identity order with all values loadable, 16 or 2 for the other triple configurations, all 144 inbound pairs everywhere. distinct_nontrivial counts distinct (window pattern, clock position, selection/route, verdict) classes.")
+		"identity order with all values loadable, 16 or 2 for the other triple configurations, all 144 inbound pairs everywhere. distinct_nontrivial counts distinct (window pattern, clock position, selection/route, verdict) classes. "+
+		"Multi-route inbound (min_*): a pool k1,k2,k3 with a window pattern {adjacent, nested, overlap, identical, gap, nested-newest-first} and an ordered list of 2..3 HMAC routes, each with its own kind = "+
+		"(subset of the pool listed by secret_ref, own inline secret yes/no; 15 kinds, 3 spellings of the auth block), every assignment of kinds to positions; per configuration the complete table "+
+		"route x signer {k1,k2,k3, inline secret of each route name, unconfigured} x signed timestamp {t_i, t_i+-1s}; accepted iff the signer is one of the route's OWN versions valid at the timestamp or its own inline secret. "+
+		"Reload scenarios: every ordered pair (A,B) of a family (1..3 routes, every selection and order of the route names a,b,c, kinds from a 2..3 letter alphabet; B may reorder/add/remove routes, change a path's list and the windows of the ids): "+
+		"boot A, lattice-timestamp table on A, rewrite the file, Reload (run()'s reloadConfig), complete table on B. Quick: 2 routes on pools adjacent+nested, 3 routes on pool nested, reload pairs adjacent->nested with 2 letters; "+
+		"thorough: all pools, every listing order of every subset for 2 routes, 5 more pool pairs, A->B->A. "+
+		"Multi-target outbound (mout_*, me2e_*): 2..3 signed targets, each its own subset of the pool / selection mode (5 patterns incl. all targets the same mode) / header names, every grouping of the targets into routes, "+
+		"every target at all 20 clock instants through one HTTPDeliverer (Deliver calls) and end to end through the running dispatcher; a push request has to be signed by the version the rule picks among the target's OWN versions and is not sent when none of them is valid. "+
+		"Race side pass (TestRace, -race build): concurrent signed requests to three routes with different lists, reloads that reorder them, and concurrent Deliver calls for three targets on one deliverer.")
 	r.Assume("time lattice t0=2000-01-01T00:01:00Z, step 10s; windows with sub-second bounds are not enumerated")
 	r.Assume("ties by id: the documentation does not say which id wins, so either end of the id order is accepted, but it has to be the same end for a selection mode everywhere and must not depend on the order of the secret_ref lines")
 	r.Assume("`cannot be loaded`: an env: ref whose variable is unset at signing time (set during boot for versions of the secrets block, because loadAuth refuses to boot otherwise; boot refusal itself is probed separately); file:/vault: refs use the same LoadRef path and are not enumerated")
 	r.Assume("methods other than POST are only reachable through the Deliverer API (the dispatcher always uses POST); lower-case method spellings are not enumerated")
+	r.Assume("multi-route / multi-target parts: pools of 3 ids, at most 3 HMAC routes or 3 signed targets per configuration; routes without `auth hmac` between the HMAC routes are not enumerated; a reload that changes deliver targets needs a restart (dispatcherConfigEqual) and is therefore not a live transition")
 	r.Assume("inbound tolerance/nonce replay rules belong to other properties: every (clock, timestamp) pair is inside the default 5m tolerance and every request has a fresh nonce")
 	r.Finish()
 }
